@@ -338,3 +338,13 @@ func jobClear(j *jobCtx) {
 		clearContinuations(j, u, n, cl, cs)
 	}
 }
+
+// the two documented constructor preconditions (C17): these constructors MUST panic
+func newBad(fam, kind string, cfg Ev, arg int, f func()) {
+	e := Ev{"fam": fam, "kind": kind, "cfg": cfg, "op": "NewBad", "a": Call{I: arg}.A(), "rs": 1, "pre": 0, "post": 0, "r": []any{},
+		"timeout": false, "mut": false, "obsbad": true, "fp": []string{"", "", ""}}
+	ci := invoke(e, f)
+	e["panic"], e["pmsg"], e["out"], e["cmps"] = ci.Panic, ci.PMsg, ci.Out, ci.Cmps
+	emit(e)
+	distinct[kind+"|NewBad|"+itoa(arg)] = struct{}{}
+}
